@@ -64,7 +64,7 @@ CHECKS = {
              "spaces, blank lines, a long line, and one line per character that Python's splitlines treats as a line boundary: U+2028, U+2029, "
              "NEL, FF, VT, FS/GS/RS, lone CR) x LF/CRLF x 4 closing-line forms (incl. missing) x leading blank line x 17 bodies (incl. uniformly indented ones) x 8 option sets is "
              "formatted; closed frontmatter must come out byte-identical (CRLF->LF) followed by exactly what the body alone formats to; unclosed "
-             "frontmatter must come back unchanged plus a final newline and be a fixed point.",
+             "frontmatter must come back unchanged plus a final newline and be a fixed point. The body is compared as written (CRLF kept). The same exactness clause is observed at the command line (file in place, file to stdout, stdin) for every line of the alphabet x LF/CRLF.",
         note="Trusted: the 12-line reference splitter in checks/c07.py. Bodies that begin with '---' are excluded from the independence clause.",
         ref="DESIGN.md §2 C07"),
     "C08": dict(
@@ -118,14 +118,14 @@ CHECKS = {
              "stdin to stdout / -o; CLI on three files to stdout / in place; CLI on a directory) in-process, and through the real "
              "`python -m flowmark.cli` subprocess for a pairwise-covering set (quick) or all 384 sets (thorough); every result must equal "
              "reformat_text(text, **options) byte for byte, per file in multi-file runs, with backups present/absent as requested and inputs "
-             "untouched. --auto alone and with every other flag equals its expansion and the preset; 10 usage errors exit non-zero with the tree unchanged.",
+             "untouched. --auto alone and with every other flag equals its expansion and the preset; 15 usage errors (incl. the offending argument after valid ones) exit non-zero with the tree unchanged. Byte streams: 11 byte-level documents (BOM, CRLF, lone CR, non-ASCII, NUL, empty, no final newline) x 7 entry points x 3 option sets through the real subprocess on real pipes must give reformat_text(decoded text) encoded as UTF-8.",
         note="Trusted: reformat_text as the reference. The document is proven at start-up to change under every single option.",
         ref="DESIGN.md §2 C15"),
     "C16": dict(
         level="exploration",
         technique="complete enumeration of flag x config x --auto x config-kind x location for every setting and every pair of settings; comparison with a precedence model at the intercepted call boundary",
-        text="For each of the 13 settings alone (all 12 config kinds x 5 locations) and for every pair of settings (3 kinds x 2 locations in quick, "
-             "all 60 in thorough): every flag state (absent / given with default value / given with another value) x every config state x "
+        text="For each of the 13 settings alone (all 12 config kinds x 8 locations incl. a nearer pyproject.toml whose [tool.flowmark] table is empty; every spelling of the flag: short-option clusters, glued values, = forms, unambiguous abbreviations) and for every pair of settings (3 kinds x 3 locations in quick, "
+             "all 96 in thorough): every flag state (absent / given with default value / given with another value) x every config state x "
              "--auto on/off is run through flowmark.cli.main in-process; the keyword arguments reaching reformat_files and the FileResolverConfig "
              "reaching FileResolver are intercepted and ALL 13 effective values (not only those under test: cross-talk) must equal the "
              "precedence model (flag, else --auto preset for the locked switches, else nearest config by file-name order per directory, else default). "
@@ -163,7 +163,7 @@ CHECKS = {
              "wrappers around open/os.open/write/close. For 18 scenarios (in place with/without backup, --auto, 3 files, an undecodable file in the middle, -o into new "
              "directories, -o onto an existing file, stdin to -o, stdout only, a stale .orig, a .orig symlink, the formatter raising, a directory, symlink and hard-link inputs) "
              "the run is repeated with a crash before every operation and after every byte prefix of every write, with each of 4 errno values "
-             "injected at every operation (writes also after a short prefix), and in the thorough tier with every pair of faults. After each "
+             "injected at every operation (writes also after a short prefix, and as a DEFERRED fault: the buffered write is accepted and the error surfaces at the next flush/close, which a file that is never closed explicitly only meets in __del__), and in the thorough tier with every pair of faults. After each "
              "execution every target holds the complete old or new content (or is absent with .orig == old when backups are on), no other file "
              "changed, and exit 0 implies everything was formatted. Conformance of the operation model: every scenario also runs fault-free as a real "
              "subprocess under strace and the attempted mutating system calls on the scenario directory must be exactly the numbered operations.",
@@ -174,7 +174,7 @@ CHECKS = {
         technique="explicit-state exploration of call histories (fresh process per sequence, state fingerprints) and stateless exploration of all thread schedules up to a preemption bound under a controlled scheduler",
         text="Histories: every sequence of up to 2 (quick) / 3 (thorough) calls over 88 actions (22 setter/observer documents for each mutable "
              "renderer, parser and wrapper field, incl. documents that START with the construct reading a field and documents sharing link targets, x 4 option sets) runs in a fresh forked process that never called flowmark; after every call the "
-             "output must equal the action's first-call-in-a-fresh-process baseline; process-wide mutable state is fingerprinted after every call. "
+             "output must equal the action's first-call-in-a-fresh-process baseline; process-wide mutable state is fingerprinted after every call. Same-document histories: 6 documents x every ordered pair (thorough: triple) of 10 option sets that differ in one dimension at one width (plaintext / fill / semantic, typography, list spacing), the collision a memo keyed on too little needs. "
              "Schedules: two threads, one reformat_text call each, on 8 colliding document pairs (both sides use the same construct with different "
              "parameters) under a cooperative scheduler whose scheduling points are all call events into flowmark/marko code (600-1500 per call): ALL "
              "schedules with one preemption, and all schedules with two preemptions at flowmark-function granularity (first 4 pairs quick, all pairs thorough); every thread's result must equal its solo result; sampled schedules "
@@ -201,7 +201,9 @@ CHECKS = {
              "against wrap_paragraph_lines / wrap_paragraph / line_wrap_to_width / fill_text / reformat_text(plaintext) which must "
              "return the model's lines; model-independent postconditions (lossless, bounded, maximal, indented) are evaluated on every "
              "result, on marker words, on multi-word atomic constructs, on the sentence wrapper and on per-paragraph triples recorded "
-             "inside fill_markdown at every container nesting in the bound.",
+             "inside fill_markdown at every container nesting in the bound. Segment spaces: paragraphs of tags, words and every separator (space, "
+             "newline, hard break) are compared with a reference segmentation at width <= 0 (exactly one line per segment) and at widths > 0 "
+             "(same words, at least one line per segment, no over-long line unless it is a single atomic token).",
         note="Trusted: the 40-line reference model and predicates in vf/wrapmodel.py; len() as length function; bounds as stated in the evidence file.",
         ref="DESIGN.md §2 C05"),
 }
